@@ -17,6 +17,7 @@ import (
 	"fmt"
 	"math"
 	"math/rand"
+	"os"
 	"path/filepath"
 	"sort"
 	"strconv"
@@ -520,7 +521,10 @@ func (p elemPage) view() map[string]interface{} {
 }
 
 func doElems(c *srv.Conn, args []string) (elemPage, error) {
-	v := c.MustDo(args...)
+	return parseElems(c.MustDo(args...), args)
+}
+
+func parseElems(v srv.Value, args []string) (elemPage, error) {
 	if v.Kind != '*' || len(v.Array) != 2 || v.Array[0].Kind != ':' || v.Array[1].Kind != '*' {
 		return elemPage{}, fmt.Errorf("unexpected reply %s to %q", v.String(), args)
 	}
@@ -540,7 +544,10 @@ func doElems(c *srv.Conn, args []string) (elemPage, error) {
 }
 
 func doJSON(c *srv.Conn, args []string) (elemPage, error) {
-	v := c.MustDo(args...)
+	return parseJSON(c.MustDo(args...), args)
+}
+
+func parseJSON(v srv.Value, args []string) (elemPage, error) {
 	if v.Kind != '$' {
 		return elemPage{}, fmt.Errorf("unexpected reply %s to %q in JSON mode", v.String(), args)
 	}
@@ -1232,12 +1239,12 @@ func (x *ctx) countObservations() {
 }
 
 func runC11(r *hx.Result, cfg hx.Config) {
-	r.Rule = "one case = (dataset reached by a random history, query, filters, direction, LIMIT): the client loop is run to cursor 0; non-trivial = distinct case whose loop produced at least two non-empty pages. Every page is also compared with Model.Cursor.page; extra cases use cursors the server never returned."
+	r.Rule = "one case = (dataset reached by a random history, query, filters, direction, LIMIT): the client loop is run to cursor 0; non-trivial = distinct case whose loop produced at least two non-empty pages. Every page is also compared with Model.Cursor.page; extra cases use cursors the server never returned. Concurrent phase (concurrent.go): one case = (client, query, output kind, protocol, LIMIT) swept to cursor 0 while the other 49 clients page through their own queries; the concatenated pages must equal the client's own unlimited reply taken on the idle server."
 	r.Assumptions = []string{
 		"the unfiltered iteration order is read from the server's own unlimited unfiltered reply (B-tree / R-tree / kNN order are not re-derived on the client)",
 		"WITHIN/INTERSECTS candidates = reply of INTERSECTS BOUNDS <area rectangle> (stored coordinates are float32-exact, area rectangles are exact or far from the grid)",
 		"filter outcome per id computed on the client: glob.Match through verifapi, WHERE min<=v<=max with missing=0, WHEREIN membership, geojson Within/Intersects through verifapi",
-		"the collection does not change while a query is paginated (single connection, no expirations)",
+		"the collection does not change while a query is paginated (no writes, no expirations); in the concurrent phase other clients page through other queries at the same time",
 	}
 	rng := rand.New(rand.NewSource(cfg.Seed))
 	drv, err := model.Start("cursor")
@@ -1251,6 +1258,9 @@ func runC11(r *hx.Result, cfg hx.Config) {
 	}
 	if cfg.Search {
 		rounds, queries = 40, 60
+	}
+	if os.Getenv("VERIF_C11_ONLY") == "concurrent" { // debugging aid: the concurrent phase alone
+		rounds = 0
 	}
 	for round := 0; round < rounds; round++ {
 		s, err := srv.Start(filepath.Join(cfg.Work, fmt.Sprintf("c11-%d", round)), "--appendonly", "no")
@@ -1298,5 +1308,7 @@ func runC11(r *hx.Result, cfg hx.Config) {
 			x.countObservations()
 		}()
 	}
+	// concurrent.go: N clients page through unchanging collections at the same time
+	runConcurrent(r, cfg, rng)
 	r.TracesImpl = r.Evaluations
 }
